@@ -84,6 +84,9 @@ def _scores(tier):
     out.append(("rolled_chord_on_a_grid_of_480_divisions", lambda: G.build_part("P1", 480, notes=[("r0", 0, 480, "C", None, 4, 1, 1), ("r1", 3, 477, "E", None, 4, 1, 1), ("r2", 6, 474, "G", None, 4, 1, 1),
                                                                                                    ("m0", 480, 480, "D", None, 4, 1, 1), ("f0", 960, 4, "A", None, 4, 1, 1), ("f1", 964, 476, "B", None, 4, 1, 1),
                                                                                                    ("m1", 1440, 480, "C", None, 5, 1, 1), ("lo", 0, 1920, "C", None, 3, 2, 1)])))
+    # a long run of triplet eighths (inter-onset intervals of a third of a beat: no multiple of any decimal grid), then a held note
+    out.append(("three_hundred_triplet_eighths", lambda: G.build_part("P1", 12, notes=[("t%d" % i, 4 * i, 4, "CDEFGAB"[i % 7], None, 4 + (i // 7) % 2, 1, 1) for i in range(300)] + [("end", 1200, 48, "C", None, 4, 1, 1),
+                                                                                      ("lo", 0, 1200, "C", None, 2, 2, 1)])))
     # an acciaccatura from ABOVE its main note (the grace note has the higher pitch of the two that share the onset), over a lower voice
     out.append(("with_a_grace_note_from_above", lambda: G.build_part("P1", 4, notes=[("n0", 0, 4, "C", None, 5, 1, 1), ("n1", 4, 4, "C", None, 5, 1, 1), ("n2", 8, 8, "E", None, 5, 1, 1), ("lo", 0, 16, "C", None, 3, 2, 1)],
                                                                      graces=[("g", 4, "D", None, 5, 1, 1, "n1")])))
@@ -119,10 +122,10 @@ def _performance(part, seed, extra=True, match_grace=False, extremes=False):
         if last_beat is not None and r["onset_beat"] > last_beat:
             bp = 0.4 + 0.3 * rng.random()
             if extremes:
-                # a fermata-like standstill in the middle (3.6 s per beat) and a presto stretch (0.085 s per beat)
+                # a fermata in the middle (8 s, then 3.6 s per beat: sixteen times slower than what precedes) and a presto stretch (0.085 s per beat)
                 n_on = len({float(x["onset_beat"]) for x in na})
                 idx = sorted({float(x["onset_beat"]) for x in na}).index(float(r["onset_beat"]))
-                bp = 3.6 if n_on // 3 <= idx < n_on // 3 + 2 else (0.085 if idx >= 2 * n_on // 3 else 0.5)
+                bp = (8.0 if idx == n_on // 3 else 3.6) if n_on // 3 <= idx < n_on // 3 + 2 else (0.085 if idx >= 2 * n_on // 3 else 0.5)
             t += (r["onset_beat"] - last_beat) * bp
         last_beat = r["onset_beat"]
         on = t + (0.01 * rng.random() if k % 3 else 0.0)
@@ -178,7 +181,9 @@ def bounded(b):
                         sid_to_pid = dict(matched)
                         pairs = [(orig[sid_to_pid[sid]], d) for sid, d in zip(snote_ids, dn)]
                         shifts = [d["note_on"] - o["note_on"] for o, d in pairs]
-                        if max(shifts) - min(shifts) > 2e-3:
+                        if not all(np.isfinite(float(d[k_])) for _, d in pairs for k_ in ("note_on", "note_off")):
+                            good, what = False, "decoded times that are not numbers: %r" % ([(d["id"], d["note_on"], d["note_off"]) for _, d in pairs if not (np.isfinite(float(d["note_on"])) and np.isfinite(float(d["note_off"])))][:4],)
+                        elif max(shifts) - min(shifts) > 2e-3:
                             good, what = False, "decoded onsets differ from the performed ones by more than one common shift (spread %.4f s)" % (max(shifts) - min(shifts))
                         for o, d in pairs:
                             if abs((d["note_off"] - d["note_on"]) - (o["note_off"] - o["note_on"])) > 2e-3:
